@@ -253,6 +253,12 @@ func iteValue(c *Term, a, b Value) Value {
 		return r
 	case *FuncVal:
 		y := b.(*FuncVal)
+		if y.Fn == nil {
+			return x // the nil side is the zero value of a freshly allocated cell
+		}
+		if x.Fn == nil {
+			return y
+		}
 		if x.Fn != y.Fn {
 			unsupported("merge of different function values")
 		}
